@@ -231,6 +231,7 @@ def request(ranges, qs):
 def check(run):
     import genlib
     genlib.validate_logic(run, "range_search", n=run.n(200, 3000))
+    genlib.validate_pair_builder(run, n=run.n(40, 400))
     run.rule = ("range sets over a 6-point start lattice (incl. -inf) x {'>','>='}: quick = every ordered list of 1..3 ranges over 4 starts (listing order, "
                 "repeated starts and mixed markers included), plus random lists of 4..5 ranges; queries below/on/between/above every start; observables value, "
                 "deriv and deriv2 of create_Multi_Range_Potential_Form objects, and energy/force of potentials built from potable definitions (with and "
